@@ -45,18 +45,20 @@ func genFOBase(r *rand.Rand, sh foShape) *Scenario {
 	fo := &FOScenario{}
 	sc.FO = fo
 
-	switch r.IntN(11) {
+	switch r.IntN(12) {
 	case 0, 1, 2, 3:
 		fo.API, fo.Backend = "failover", "sharded"
 	case 4, 5, 6:
 		fo.API, fo.Backend = "failover", "syncmap"
 	case 7:
 		fo.API, fo.Backend = "failover", "shardedOfAny"
+	case 8:
+		fo.API, fo.Backend = "failoverOfAny", pick(r, "sharded", "syncmap")
 	default:
 		fo.API, fo.Backend = "failoverOf", "shardedOf"
 	}
 
-	if fo.API == "failover" && chance(r, 0.35) {
+	if fo.API != "failoverOf" && chance(r, 0.35) {
 		fo.ValRep = pick(r, "slice", "map", "box", "ptr")
 	}
 
@@ -299,6 +301,7 @@ func shrinkFO(sc *Scenario, yield func(c *Scenario) bool) {
 			mods := []func(o *FOOp) bool{
 				func(o *FOOp) bool { ok := o.BuildSleepNs != 0; o.BuildSleepNs = 0; return ok },
 				func(o *FOOp) bool { ok := o.BuildFail; o.BuildFail = false; return ok },
+				func(o *FOOp) bool { ok := o.BuildErrKind != ""; o.BuildErrKind = ""; return ok },
 				func(o *FOOp) bool { ok := o.BuildPanic; o.BuildPanic = false; return ok },
 				func(o *FOOp) bool { ok := o.HasCtxTTL; o.HasCtxTTL = false; o.CtxTTLNs = 0; return ok },
 				func(o *FOOp) bool { ok := o.SkipRead; o.SkipRead = false; return ok },
@@ -341,6 +344,7 @@ func shrinkFO(sc *Scenario, yield func(c *Scenario) bool) {
 			return ok
 		},
 		func(c *FOScenario) bool { ok := c.ValRep != ""; c.ValRep = ""; return ok },
+		func(c *FOScenario) bool { ok := c.WrapBackendErrs; c.WrapBackendErrs = false; return ok },
 		func(c *FOScenario) bool { ok := c.Cfg.SyncRead; c.Cfg.SyncRead = false; return ok },
 		func(c *FOScenario) bool { ok := c.Cfg.SyncUpdate; c.Cfg.SyncUpdate = false; return ok },
 		func(c *FOScenario) bool { ok := c.Cfg.FailHard; c.Cfg.FailHard = false; return ok },
